@@ -1,4 +1,5 @@
-from props.common import vault_obligations, krow_obligations, ktab_obligations, TRUSTED as _T
+from vlib.runner import Obl
+from props.common import KT_ENCODES, KT_STUBS, vault_obligations, krow_obligations, ktab_obligations, TRUSTED as _T
 
 PROPERTY = "C10"
 EXPLANATION = (
@@ -10,3 +11,16 @@ OUTSIDE = "Container.clone, XmlPart.clone, Document.clone (zip loading, deepcopy
 ASSUMPTIONS = ["pre-states are run-length encodings with repeats >= 1 whose maps equal make_cache_map(XML)"]
 TRUSTED = _T
 OBLIGATIONS = vault_obligations(10) + krow_obligations(10) + ktab_obligations(10, 40, 'nr')
+
+
+def _c(fn, secs, bounds):
+    return Obl(name=fn, module="h_kclone", func=fn, timeout=max(90, secs * 4), replay="r_h_kclone:" + fn, weight=secs, bounds=bounds,
+               encodes=["src/odfdo/row.py:Row.clone,Row.repeated (setter)", "src/odfdo/table.py:Table.{rows,traverse,append_row,set_cell}", KT_ENCODES[2]],
+               stubs=KT_STUBS + ["Element.clone re-pointed to the node-level deep copy of the typed-element layer (the real Row.clone runs on top of it)"])
+
+
+OBLIGATIONS += [
+    _c("kclone_row_from_traverse", 8, "row-runs in 1..2, plain cells; the k-th row of table.rows is cloned, the clone put in another table, repeated n >= 2 (unbounded) and edited"),
+    _c("kclone_row_original_edit", 31, "row of 2 cell-runs, unbounded repeats; original edited after cloning"),
+    _c("kclone_table", 43, "tall template, unbounded row-runs; set_cell on either twin"),
+]
